@@ -147,6 +147,18 @@ func judgeFwd(rep *lib.Report, ln fwdLine, haveModel bool) {
 	zeroMinus := strings.Contains(f[:len(f)-1], "0") && (strings.Contains(f, "-") || ln.W == "*-4") &&
 		// only a '0' that is a flag (before any width digit): the generator writes flags first
 		strings.Contains(strings.TrimLeft(f[1:], "+-# "), "0") && strings.HasPrefix(strings.TrimLeft(f[1:], "+-# "), "0")
+	seen := map[string]obs{} // what the method observed, per printer
+	defer func() {
+		// the width and the precision the method observes are those of the directive: the standard printer is the
+		// reference (C14 speaks of re-creating the ACTIVE directive; what is active is what fmt would have parsed)
+		if of, ok := seen["fmt/Formatter"]; ok {
+			for _, name := range []string{"redact/Formatter", "redact/SafeFormatter"} {
+				if or, ok := seen[name]; ok && (or.W != of.W || or.P != of.P) {
+					rep.Violate("fwd:width-precision-observed", fmt.Sprintf("%s: directive %q gives the method width %d precision %d; under fmt it is width %d precision %d", name, f, or.W, or.P, of.W, of.P), kase)
+				}
+			}
+		}
+	}()
 	for ei, e := range envs {
 		for variant := 0; variant < 2; variant++ {
 			if ei == 0 && variant == 1 {
@@ -160,6 +172,9 @@ func judgeFwd(rep *lib.Report, ln fwdLine, haveModel bool) {
 			e.run(f, probe)
 			rep.AddEval(1)
 			name := e.name + []string{"/Formatter", "/SafeFormatter"}[variant]
+			if o1.Calls == 1 {
+				seen[name] = o1
+			}
 			if o1.Calls != 1 {
 				rep.Violate("fwd:not-dispatched", fmt.Sprintf("%s: directive %q did not reach the operand's method exactly once (%d)", name, f, o1.Calls), kase)
 				continue
